@@ -2,13 +2,57 @@
 
 package neofsecdsa
 
-// VerifHookDecode models public key decoding (elliptic-curve arithmetic is
-// outside the encoder's reach). The real method is renamed to Decode__real.
-var VerifHookDecode func(x *PublicKey, data []byte) error
+// Hooks modelling public key decoding and signature verification of the three
+// ECDSA schemes as verdicts (elliptic-curve arithmetic is outside the encoder's
+// reach). The real methods are renamed to <name>__real.
+var (
+	VerifHookDecode func(x *PublicKey, data []byte) error
+	// VerifHookDecodeAny / VerifHookVerifyAny serve all three key types; scheme is 0 (SHA512), 1 (RFC6979), 2 (WalletConnect).
+	VerifHookDecodeAny func(scheme int, data []byte) error
+	VerifHookVerifyAny func(scheme int, data, signature []byte) bool
+)
 
 func (x *PublicKey) Decode(data []byte) error {
 	if h := VerifHookDecode; h != nil {
 		return h(x, data)
 	}
+	if h := VerifHookDecodeAny; h != nil {
+		return h(0, data)
+	}
 	return x.Decode__real(data)
+}
+
+func (x PublicKey) Verify(data, signature []byte) bool {
+	if h := VerifHookVerifyAny; h != nil {
+		return h(0, data, signature)
+	}
+	return x.Verify__real(data, signature)
+}
+
+func (x *PublicKeyRFC6979) Decode(data []byte) error {
+	if h := VerifHookDecodeAny; h != nil {
+		return h(1, data)
+	}
+	return x.Decode__real(data)
+}
+
+func (x PublicKeyRFC6979) Verify(data, signature []byte) bool {
+	if h := VerifHookVerifyAny; h != nil {
+		return h(1, data, signature)
+	}
+	return x.Verify__real(data, signature)
+}
+
+func (x *PublicKeyWalletConnect) Decode(data []byte) error {
+	if h := VerifHookDecodeAny; h != nil {
+		return h(2, data)
+	}
+	return x.Decode__real(data)
+}
+
+func (x PublicKeyWalletConnect) Verify(data, signature []byte) bool {
+	if h := VerifHookVerifyAny; h != nil {
+		return h(2, data, signature)
+	}
+	return x.Verify__real(data, signature)
 }
